@@ -70,6 +70,11 @@ def ringRead (blocking : Bool) : List Bool → Bool × List Bool
   | [] => (true, [])
   | b :: s => if blocking then (true, b :: s) else (!b, s)
 
+/-- `if !indexSet { index = pos - hdrLen; indexSet = true }` -/
+def setIndex : Option Nat → Nat → Option Nat
+  | some i, _ => some i
+  | none, n => some n
+
 /-- the `for` loop of `encoder.Read` ("read more packets and fill in as much of the frame as
 possible").  `queue` = the packets still to come, `sched` = oracle for the non-blocking reads. -/
 def fill (mtu : Nat) : List Bytes → List Bool → Bytes → Option Nat → Fill
@@ -82,7 +87,7 @@ def fill (mtu : Nat) : List Bytes → List Bool → Bytes → Option Nat → Fil
       | (true, sched') =>
         if !validPkt p then fill mtu q sched' pl idx
         else
-          let idx' := match idx with | some i => some i | none => some pl.length
+          let idx' := setIndex idx pl.length
           let n := min (mtu - (hdrLen + pl.length)) p.length
           let pl' := pl ++ p.take n
           let res := p.drop n
@@ -179,13 +184,13 @@ structure Scan where
 
 /-- the loop of `ProcessCompletePkts` over the bytes from `offset` to the end of the frame -/
 def scan (bs : Bytes) : Scan :=
-  if h : bs.length = 0 then ⟨[], 0, none⟩
+  if _h : bs.length = 0 then ⟨[], 0, none⟩
   else
-    match hd : declLen bs with
+    match _hd : declLen bs with
     | none => ⟨[], 0, none⟩
     | some l =>
-      if hl : bs.length < l then ⟨[], 0, some l⟩
-      else if h0 : l = 0 then ⟨[], 0, none⟩ -- unreachable: declared lengths are ≥ 20
+      if _hl : bs.length < l then ⟨[], 0, some l⟩
+      else if _h0 : l = 0 then ⟨[], 0, none⟩ -- unreachable: declared lengths are ≥ 20
       else
         let r := scan (bs.drop l)
         ⟨bs.take l :: r.out, l + r.consumed, r.frag⟩
